@@ -4,6 +4,7 @@ import (
 	"bytes"
 	"fmt"
 	"os"
+	"strings"
 )
 
 // selfTestDeterminism proves that one seed is one execution: every (scenario, seed) pair is
@@ -87,10 +88,78 @@ func selfTestDeterminism(c *Ctx) int {
 		}
 	}
 	fmt.Printf("determinism self-test: %d scenarios x %d pool configurations + %d fresh-process runs, %d mismatches\n", len(scs), len(configs), fresh, bad)
+	bad += schedulerLab(c)
 	if bad > 0 {
 		return 2
 	}
 	return 0
+}
+
+// schedulerLab self-tests the seeded goroutine scheduler on the simlab program: one seed is
+// one interleaving (same output in different worker processes and pool shapes), different
+// seeds reach different interleavings, and the canonical schedule is creation order.
+func schedulerLab(c *Ctx) int {
+	modes := []string{"fanout", "collect", "rendezvous", "racy"}
+	nseeds := 24
+	type key struct {
+		mode  string
+		sched string
+		seed  uint64
+	}
+	var keys []key
+	for _, m := range modes {
+		keys = append(keys, key{m, "canon", 0}, key{m, "rev", 0})
+		for s := 1; s <= nseeds; s++ {
+			keys = append(keys, key{m, "seeded", uint64(s) * 7919})
+		}
+	}
+	runAll := func(workers int) []string {
+		p := NewPool(c.World, c.Pool.bins, workers)
+		defer p.Close()
+		out := make([]string, len(keys))
+		p.ParallelFor(len(keys), func(w *Worker, i int) {
+			k := keys[i]
+			res := w.Exec(&Job{Node: "simlab", Argv: []string{k.mode}, Seed: k.seed, Sched: k.sched, Budget: 20_000_000})
+			out[i] = fmt.Sprintf("%s|%d|%s|%s|sched=%d|g=%d", res.Status, res.Exit, res.EvHash, bytes.TrimSpace(res.Stdout), res.SchedEvts, res.Goroutines)
+		})
+		return out
+	}
+	a := runAll(16)
+	b := runAll(3)
+	d := runAll(1)
+	bad := 0
+	distinct := map[string]map[string]bool{}
+	for i, k := range keys {
+		if a[i] != b[i] || a[i] != d[i] {
+			bad++
+			if bad <= 6 {
+				fmt.Printf("NONDETERMINISM simlab %s %s seed=%d:\n  %s\n  %s\n  %s\n", k.mode, k.sched, k.seed, a[i], b[i], d[i])
+			}
+		}
+		if !strings.HasPrefix(a[i], "exit|0|") {
+			bad++
+			fmt.Printf("simlab %s %s seed=%d did not finish normally: %s\n", k.mode, k.sched, k.seed, a[i])
+		}
+		if distinct[k.mode] == nil {
+			distinct[k.mode] = map[string]bool{}
+		}
+		parts := strings.Split(a[i], "|")
+		if len(parts) > 3 {
+			distinct[k.mode][parts[3]] = true
+		}
+		if k.sched == "canon" && k.mode == "fanout" && !strings.Contains(a[i], "fanout [0 1 2 3 4]") {
+			bad++
+			fmt.Printf("simlab fanout under the canonical schedule is not creation order: %s\n", a[i])
+		}
+	}
+	for _, m := range modes {
+		fmt.Printf("scheduler lab %-10s: %d distinct interleavings over %d schedules\n", m, len(distinct[m]), nseeds+2)
+		if len(distinct[m]) < 3 {
+			bad++
+			fmt.Printf("scheduler lab %s: the scheduler does not vary the interleaving\n", m)
+		}
+	}
+	return bad
 }
 
 // gateNode is the fidelity gate of the non-ti engines; each engine file overrides it through
